@@ -25,6 +25,7 @@ import (
 	"verif/harness/core"
 	"verif/harness/gen"
 	"verif/harness/refmodel"
+	"verif/harness/wire"
 )
 
 // Target is one top-level decode target.
@@ -168,6 +169,15 @@ func Probe(c *core.Ctx, prop, enc string, t *Target, data []byte, class string) 
 	if e1 == nil {
 		c.Count("accepted", 1)
 		c.Count("accepted."+enc, 1)
+		// containment: the generic target walks the whole tree, so whatever it accepts must keep every
+		// item inside the declared extent of its enclosing structure (independent, lenient extent walk)
+		if enc == "ttlv" && t.Name == "Value" {
+			c.Count("extent_walks", 1)
+			if xerr := wire.CheckExtents(data); xerr != nil {
+				c.Violation(prop+":accepted-item-beyond-extent", fmt.Sprintf("the binary decoder accepts an input in which an item lies outside the declared extent of its enclosing structure (%s input): %v", class, xerr),
+					map[string]any{"input": show(enc, data)})
+			}
+		}
 		return true, v1
 	}
 	c.Count("rejected", 1)
@@ -476,7 +486,7 @@ func Spec() *core.Spec {
 			"child-beyond-parent extent pairs with two different fillers, Stream.Recv under chunking and the HTTP handler with three content types; " +
 			"each call runs under panic, canary/mutation, determinism and hang monitors. distinct = distinct (encoding, target, input bytes)",
 		Assumptions: []string{"inputs are bounded by 64 KiB except the nesting ladders (<= 1 MiB, the server's transport limit)", "the decoders' answers are not judged here (C01/C03/C18), only that they answer"},
-		Required:    []string{"decodes.ttlv", "decodes.xml", "decodes.json", "accepted", "rejected", "extent_pairs", "stream_recvs", "http_requests"},
+		Required:    []string{"decodes.ttlv", "decodes.xml", "decodes.json", "accepted", "rejected", "extent_pairs", "extent_walks", "stream_recvs", "http_requests"},
 		EvalCounter: "decodes",
 		Families: []core.Family{
 			{Name: "bin-ladder", N: nOf(400, 6000), Run: func(c *core.Ctx, r *core.Rand, i int) {
